@@ -17,7 +17,7 @@ from pathlib import Path
 
 VERIF = Path(__file__).resolve().parent.parent
 REPO = Path(os.environ.get("VERIF_REPO", "/repo"))
-EVIDENCE = VERIF / "evidence"
+EVIDENCE = Path(os.environ.get("VERIF_EVIDENCE_DIR") or VERIF / "evidence")   # mutant trials write elsewhere
 REPLAYS = VERIF / "replays"
 KNOWN = VERIF / "known_findings.json"
 PY = "/venv/bin/python"
